@@ -9,7 +9,7 @@ PROP = "C03"
 
 
 def body():
-    A.aggsender_check(PROP, model_cfgs=["AggSenderC02.cfg"], gen_cfgs=["AggSenderGenC02.cfg", "AggSenderGenC02b.cfg", "AggSenderGenC02cut.cfg", "AggSenderGenFEP.cfg"], quick_n=200, thorough_n=4000, l2reorgs=True, invs=["NewOK", "FromOK"])
+    A.aggsender_check(PROP, model_cfgs=["AggSenderC02.cfg"], gen_cfgs=["AggSenderGenC02.cfg", "AggSenderGenC02b.cfg", "AggSenderGenC02cut.cfg", "AggSenderGenFEP.cfg"], quick_n=200, thorough_n=4000, l2reorgs=True, l1random=True, invs=["NewOK", "FromOK"])
 
 
 if __name__ == "__main__":
